@@ -66,6 +66,14 @@ def build_alphabet(darsia):
             return G(IMG_A[:6, :5].copy(), RHS_A[:6, :5].copy())
         return G(IMG_A.copy(), RHS_A.copy())
 
+    def mg2_het(small):
+        # one explicit two-level MG object with array-valued coefficients: a request it refuses (an image that does not
+        # fit its coefficients), and the regular image
+        G = shared("MG2H", lambda: darsia.MG(depth=2, smoother_iterations=2, maxiter=2, mass_coeff=COEF_M.copy(), diffusion_coeff=COEF_D.copy(), dim=2))
+        if small:
+            return G(IMG_A[:6, :5].copy(), RHS_A[:6, :5].copy())
+        return G(IMG_A.copy(), RHS_A.copy())
+
     def mg_het():
         G = shared("MGH", lambda: darsia.MG(depth=1, smoother_iterations=2, maxiter=2, mass_coeff=COEF_M.copy(), diffusion_coeff=COEF_D.copy(), dim=2))
         return G(IMG_A.copy(), RHS_A.copy())
@@ -295,6 +303,8 @@ def build_alphabet(darsia):
         "mg_upd_B": lambda: mg_update_arrays("B"),
         "mg_upd_scalar": mg_update_scalar,
         "jac_arrays_h05": lambda: jac_arrays(0.5),
+        "mg2het_refused": lambda: mg2_het(True),
+        "mg2het_regular": lambda: mg2_het(False),
         "w_cg_shared_options": lambda: wass("bregman_cg_shared_options", 0),
         "w_amg_shared_options": lambda: wass("bregman_amg_shared_options", 0),
         "jac_arrays_h1": lambda: jac_arrays(1.0),
@@ -318,12 +328,13 @@ LETTERS = [
     "mg2_small", "mg2_regular", "w_bregman_L2_A", "w_bregman_L2_B", "w_bregman_L2fr_A", "w_bregman_L2fr_B", "w_bregman_amg_custom",
     "w_bregman_big_A", "w_bregman_big_B", "w_bregman_big_aa_A", "w_bregman_big_aa_B", "w_newton_big_A", "w_newton_big_B",
     "tvd_obj_A", "tvd_obj_B", "tvd_obj_x0", "w_bregman_amg_multilevel_A", "w_bregman_amg_multilevel_B", "w_newton_cg_multilevel_A",
-    "mg_upd_scalar", "sb_caller_arrays_A", "sb_caller_arrays_B", "w_newton_other_domain", "w_bregman_other_domain", "w_newton_outputs_modified", "w_bregman_outputs_modified", "jac_arrays_h05", "jac_arrays_h1", "w_cg_shared_options", "w_amg_shared_options",
+    "mg_upd_scalar", "sb_caller_arrays_A", "sb_caller_arrays_B", "w_newton_other_domain", "w_bregman_other_domain", "w_newton_outputs_modified", "w_bregman_outputs_modified", "jac_arrays_h05", "jac_arrays_h1", "w_cg_shared_options", "w_amg_shared_options", "mg2het_refused", "mg2het_regular",
 ]
 # letters that can share state with each other (same object or same module-level default)
 GROUPS = {
     "jacobi": ["jac_h1", "jac_h05", "jac_params", "jac_3d"],
     "mg": ["mg_a", "mg_b"],
+    "mg_two_level_heterogeneous": ["mg2het_refused", "mg2het_regular"],
     "w_shared_linear_solver_options": ["w_cg_shared_options", "w_amg_shared_options"],
     "jacobi_arrays": ["jac_arrays_h05", "jac_arrays_h1", "mg_het", "h1_mgarr_A"],
     "mg_het": ["mg_het"],
